@@ -778,6 +778,8 @@ MenuOp(t) ==
   \/ M("rootctx") /\ \E h \in Handles(t) \cup {0}, w \in BOOLEAN : RootCtx(t, h, w)
   \/ M("child") /\ \E h \in Handles(t) : Child(t, <<h>>, FALSE)
   \/ M("child2") /\ \E h1, h2 \in Handles(t) : h1 < h2 /\ Child(t, <<h1, h2>>, TRUE)
+  \* ... the parents listed in the other order (the first parent's trace is the span's own context)
+  \/ M("child2r") /\ \E h1, h2 \in Handles(t) : h1 > h2 /\ Child(t, <<h1, h2>>, TRUE)
   \/ M("childm") /\ \E h \in Handles(t) : spans[h].st = "noop" /\ Child(t, <<h>>, TRUE)
   \/ M("childl") /\ ChildLocal(t)
   \/ M("mknoop") /\ MkNoop(t)
@@ -906,7 +908,7 @@ Done == AllQuiet /\ quiet = 2
 \* has been made and finished, say): the rest of the budget is given up, so that the behaviour is torn
 \* down and printed like any other instead of ending nowhere
 GiveUp ==
-  /\ ~Fixed /\ Budget /\ cph = "idle"
+  /\ (~Fixed \/ Prefix) /\ Budget /\ cph = "idle"
   /\ \A t \in Threads : Idle(t) \/ tst[t] # "live"
   /\ \A t \in Threads : ~ENABLED Op(t)
   /\ \A t \in Threads : ~(M("spawn") /\ ENABLED Spawn(t)) /\ ~(M("flush") /\ CanStart(t) /\ ENABLED Flush(t))
